@@ -53,7 +53,12 @@ type tcase struct {
 	//               the maximum-valued member renamed / one value changed under the same names / one more member.
 	//               The union has to keep BOTH members, each with its own table: every member of the kind is
 	//               read back in order, the first must hold the near twin's table, the second the model's.
-	// With errors the forms typedef, chain, dr, da compare the errors only (no resolved type reaches the leaf).
+	//   "r1" "r2" "r3" "r4"  the generated list written INSIDE a type statement that names a typedef `base` of the same
+	//               kind with five other-valued members (a "restriction"): in a leaf / in a derived typedef used by a
+	//               leaf / as a union member / in a leaf-list.  goyang runs the ordinary fold over the written list
+	//               from an empty table there (it does not consult the base's table; see the report on RFC 7950
+	//               9.6.4.2 restricted types), and that is what the model requires.
+	// With errors the forms typedef, chain, r2, dr, da compare the errors only (no resolved type reaches the leaf).
 	Hist string   `json:"hist,omitempty"`
 	Form string   `json:"form,omitempty"`
 	Twin []string `json:"twin,omitempty"` // union forms: surviving members "name:value", from the model
@@ -62,8 +67,16 @@ type tcase struct {
 func (c tcase) key() string { return c.req() + " " + c.Hist + " " + c.Form }
 
 func (c tcase) req() string {
+	op := "enum.text"
+	if c.Path == "ops" {
+		op = "enum.steps" // the table is read back after every call
+	}
+	return op + c.args()
+}
+
+func (c tcase) args() string {
 	var sb strings.Builder
-	sb.WriteString("enum." + c.Path + " " + c.Kind)
+	sb.WriteString(" " + c.Kind)
 	for i := range c.Names {
 		sb.WriteString(" " + lib.HexS(c.Names[i]) + " " + c.Vals[i])
 	}
@@ -75,7 +88,7 @@ func (c tcase) specReq() string {
 	if c.Path == "text" {
 		op = "spec.text"
 	}
-	return op + c.req()[len("enum."+c.Path):]
+	return op + c.args()
 }
 
 func numClass(m string) string {
@@ -113,10 +126,10 @@ func errClass(err error) string {
 	return "num." + numClass(m)
 }
 
-func dump(e *yang.EnumType, errs []string) string {
-	if e == nil {
-		return "errs=" + strings.Join(errs, ",") + " no-type"
-	}
+// table reads every view of e — Names(), Values(), NameMap(), ValueMap(), the exported maps ToInt and
+// ToString, and the point lookups — and prints the four views; when the views do not agree with the maps
+// (or, for an enumeration, are not mutually inverse) it says so instead.
+func table(kind string, e *yang.EnumType) string {
 	var names, values, nm, vm []string
 	for _, n := range e.Names() {
 		names = append(names, lib.HexS(n))
@@ -137,19 +150,58 @@ func dump(e *yang.EnumType, errs []string) string {
 	for _, k := range ks {
 		vm = append(vm, strconv.FormatInt(k, 10)+":"+lib.HexS(v[k]))
 	}
-	// the point lookups must agree with the map views
-	for n, val := range m {
-		if e.Value(n) != val || !e.IsDefined(n) {
-			return "inconsistent-views"
+	out := "names=" + strings.Join(names, ",") + " values=" + strings.Join(values, ",") +
+		" namemap=" + strings.Join(nm, ",") + " valuemap=" + strings.Join(vm, ",")
+	bad := func(what string) string { return "inconsistent-views(" + what + "): " + out }
+	// the views are copies of the maps
+	if len(m) != len(e.ToInt) || len(e.Names()) != len(e.ToInt) || len(e.Values()) != len(e.ToInt) {
+		return bad(fmt.Sprintf("NameMap/Names/Values have %d/%d/%d entries, ToInt has %d", len(m), len(e.Names()), len(e.Values()), len(e.ToInt)))
+	}
+	for n, val := range e.ToInt {
+		if got, ok := m[n]; !ok || got != val {
+			return bad("NameMap differs from ToInt at " + n)
 		}
+		if e.Value(n) != val || !e.IsDefined(n) {
+			return bad("Value/IsDefined differ from ToInt at " + n)
+		}
+	}
+	if len(v) != len(e.ToString) {
+		return bad(fmt.Sprintf("ValueMap has %d entries, ToString has %d", len(v), len(e.ToString)))
+	}
+	for k, n := range e.ToString {
+		if got, ok := v[k]; !ok || got != n {
+			return bad("ValueMap differs from ToString at " + strconv.FormatInt(k, 10))
+		}
+		if e.Name(k) != n {
+			return bad("Name differs from ToString at " + strconv.FormatInt(k, 10))
+		}
+	}
+	// every name's value is named (by that name, unless two bits share the position)
+	for n, val := range m {
+		if _, ok := v[val]; !ok {
+			return bad("value of " + n + " is missing from ValueMap")
+		}
+	}
+	if kind == "e" && len(m) != len(v) {
+		return bad(fmt.Sprintf("enumeration with %d names and %d named values", len(m), len(v)))
 	}
 	for k, n := range v {
-		if e.Name(k) != n {
-			return "inconsistent-views"
+		if m[n] != k {
+			return bad("ValueMap and NameMap are not inverse at " + strconv.FormatInt(k, 10))
 		}
 	}
-	return "errs=" + strings.Join(errs, ",") + " names=" + strings.Join(names, ",") + " values=" + strings.Join(values, ",") +
-		" namemap=" + strings.Join(nm, ",") + " valuemap=" + strings.Join(vm, ",")
+	return out
+}
+
+func dump(kind string, e *yang.EnumType, errs []string) string {
+	if e == nil {
+		return "errs=" + strings.Join(errs, ",") + " no-type"
+	}
+	t := table(kind, e)
+	if strings.HasPrefix(t, "inconsistent-views") {
+		return t
+	}
+	return "errs=" + strings.Join(errs, ",") + " " + t
 }
 
 func quoteYang(raw []byte) string {
@@ -220,6 +272,22 @@ func yangFiles(c tcase) (files [][2]string, firstLine int) {
 		}
 		pre = head + " leaf l { type union {\n" + strings.Join(others[:at], "")
 		post = "\n" + strings.Join(others[at:], "") + " } } }\n"
+	case "r1", "r2", "r3", "r4":
+		baseTd := " typedef base { type enumeration { enum a { value 3; } enum b; enum c { value -2; } enum d; enum e; } }\n"
+		if c.Kind == "b" {
+			baseTd = " typedef base { type bits { bit a { position 3; } bit b; bit c { position 1; } bit d; bit e; } }\n"
+		}
+		gen = "type base {\n" + mem.String() + " }"
+		switch c.Form {
+		case "r1":
+			pre, post = head+baseTd+" leaf l { ", " } }\n"
+		case "r2":
+			pre, post = head+baseTd+" typedef d { ", " }\n leaf l { type d; } }\n"
+		case "r3":
+			pre, post = head+baseTd+" leaf l { type union {\n", "\ntype string;\n } } }\n"
+		case "r4":
+			pre, post = head+baseTd+" leaf-list l { ", " } }\n"
+		}
 	case "n0", "nm", "nv", "n+":
 		tw := "type " + tn + " {"
 		for _, nv := range c.Twin {
@@ -281,7 +349,7 @@ func tables(c tcase, ms *yang.Modules) []*yang.EnumType {
 	case "grouping":
 		m := yang.ToEntry(ms.Modules["m"])
 		return []*yang.EnumType{pick(typeOf(m, "c1", "l")), pick(typeOf(m, "c2", "l"))}
-	case "u1", "u2", "u3":
+	case "u1", "u2", "u3", "r3":
 		u := typeOf(yang.ToEntry(ms.Modules["m"]), "l")
 		if u == nil {
 			return []*yang.EnumType{nil}
@@ -343,7 +411,7 @@ func expectDump(members []string) string {
 func nearAnswer(c tcase, ms *yang.Modules, errs []string) string {
 	l := yang.ToEntry(ms.Modules["m"]).Dir["l"]
 	if l == nil || l.Type == nil {
-		return dump(nil, errs)
+		return dump(c.Kind, nil, errs)
 	}
 	var tabs []*yang.EnumType
 	for _, t := range l.Type.Type {
@@ -358,14 +426,14 @@ func nearAnswer(c tcase, ms *yang.Modules, errs []string) string {
 	if len(tabs) != 2 {
 		var ds []string
 		for _, e := range tabs {
-			ds = append(ds, dump(e, nil))
+			ds = append(ds, dump(c.Kind, e, nil))
 		}
 		return fmt.Sprintf("union-keeps-%d-of-2-members errs=%s: %s", len(tabs), strings.Join(errs, ","), strings.Join(ds, " ## "))
 	}
-	if got, want := dump(tabs[0], nil), expectDump(c.Twin); got != want {
+	if got, want := dump(c.Kind, tabs[0], nil), expectDump(c.Twin); got != want {
 		return "near-twin-table-changed: " + got + " want " + want
 	}
-	return dump(tabs[1], errs)
+	return dump(c.Kind, tabs[1], errs)
 }
 
 // runGo runs the real code on one case.
@@ -380,7 +448,8 @@ func runGo(c tcase) (out string) {
 		if c.Kind == "b" {
 			e = yang.NewBitfield()
 		}
-		var errs []string
+		// after EVERY call every view is read back (a view read between two calls must not go stale)
+		var steps []string
 		for i := range c.Names {
 			var err error
 			if c.Vals[i] == "-" {
@@ -392,11 +461,13 @@ func runGo(c tcase) (out string) {
 				}
 				err = e.Set(c.Names[i], v)
 			}
+			cl := "-"
 			if err != nil {
-				errs = append(errs, strconv.Itoa(i)+":"+errClass(err))
+				cl = errClass(err)
 			}
+			steps = append(steps, "err="+cl+" "+table(c.Kind, e))
 		}
-		return dump(e, errs)
+		return strings.Join(steps, stepSep)
 	}
 	files, firstLine := yangFiles(c)
 	if files == nil {
@@ -416,7 +487,7 @@ func runGo(c tcase) (out string) {
 			return
 		}
 		for _, e := range tables(c, ms) {
-			dumps = append(dumps, project(c, dump(e, errs)))
+			dumps = append(dumps, project(c, dump(c.Kind, e, errs)))
 		}
 	}
 	switch c.Hist {
@@ -445,6 +516,7 @@ func runGo(c tcase) (out string) {
 	return dumps[0]
 }
 
+const stepSep = " | "
 const runsDiffer = "runs-differ: "
 const runSep = " || "
 
@@ -487,7 +559,7 @@ func classify(c tcase, firstLine int, raw []error) []string {
 // project keeps what is compared: for the typedef form with errors only the errors (the leaf has no
 // resolved type then); everything otherwise.  Applied to the Go answer and to the model's answer.
 func project(c tcase, ans string) string {
-	if !(c.Form == "typedef" || c.Form == "chain" || c.Form == "dr" || c.Form == "da") || !strings.HasPrefix(ans, "errs=") {
+	if !(c.Form == "typedef" || c.Form == "chain" || c.Form == "r2" || c.Form == "dr" || c.Form == "da") || !strings.HasPrefix(ans, "errs=") {
 		return ans
 	}
 	first := strings.Fields(ans)[0]
@@ -510,6 +582,25 @@ func judge(c tcase, g, s string) (bool, string) {
 			}
 		}
 		return true, "the runs differ, each satisfies the specification"
+	}
+	if c.Path == "ops" {
+		// per-call blocks: every block must be self-consistent; the last table with the collected errors is
+		// judged against the RFC assignment
+		if strings.Contains(g, "inconsistent-views") {
+			return false, "a view read back between two calls disagrees with the maps or the views are not mutually inverse: " + g
+		}
+		blocks := strings.Split(g, stepSep)
+		var errs []string
+		for i, b := range blocks {
+			if !strings.HasPrefix(b, "err=") {
+				return false, "Go did not produce a result: " + g
+			}
+			if cl := strings.TrimPrefix(strings.Fields(b)[0], "err="); cl != "-" {
+				errs = append(errs, strconv.Itoa(i)+":"+cl)
+			}
+		}
+		last := blocks[len(blocks)-1]
+		g = "errs=" + strings.Join(errs, ",") + last[strings.Index(last, " "):]
 	}
 	if strings.HasPrefix(g, "union-keeps-") {
 		return false, "a member of the union lost its table (taken for a duplicate of a different type, or dropped): " + g
@@ -600,7 +691,7 @@ func choices(path string) []choice {
 	return out
 }
 
-var newForms = []string{"leaflist", "chain", "grouping", "u1", "u2", "u3", "dr", "da"}
+var newForms = []string{"leaflist", "chain", "grouping", "u1", "u2", "u3", "dr", "da", "r1", "r2", "r3", "r4"}
 var nearForms = []string{"n0", "nm", "nv", "n+"}
 
 // nearOf derives a near twin from the surviving members (written order, "name:value"); ok = false when
@@ -677,7 +768,7 @@ func nearOf(kind, form string, twin []string) (out []string, ok bool) {
 // expand returns the text case c (a bare statement list) in every history in a leaf, in the typedef form
 // under the two histories that process twice (when wanted), and in every other placement (history a).
 // twin: the members the model's fold leaves (for the union placements).  rot < 0: every placement;
-// rot = 0, 1, 2: every third of the twelve placements beyond leaf and typedef, starting at rot.
+// rot = 0, 1, 2: every third of the sixteen placements beyond leaf and typedef, starting at rot.
 func expand(c tcase, typedefToo bool, twin []string, rot int) []tcase {
 	var out []tcase
 	for _, h := range []string{"a", "b", "c", "d"} {
@@ -995,9 +1086,11 @@ func main() {
 		"(45 choices per member, so duplicate names and three distinct names both occur), for enumeration and for bits; plus %d cases with odd argument spellings on the text path and %d seeded random sequences of length 4..10 over 6 names. "+
 		"Every text case goes through four histories of one Modules value - (a) Parse, Process; (b) Parse, Process, Process; (c) Parse, ToEntry(module), Process; (d) Parse, Process, Parse of an unrelated module, Process - "+
 		"and the result is taken after EVERY run (and after the early read in c); sequences up to length 2 and the odd spellings also with the type in a typedef (histories b, d). "+
-		"Every enumerated and odd statement list is also placed (history a; in the quick tier the lists of length 3 take a seeded third of these twelve placements, in the thorough tier all) in a leaf-list, in a typedef used through a chain of three, in a grouping used twice (both copies read), as member 1 / 2 / 3 of a union beside "+
+		"Every enumerated and odd statement list is also placed (history a; in the quick tier the lists of length 3 take a seeded third of these sixteen placements, in the thorough tier all) in a leaf-list, in a typedef used through a chain of three, in a grouping used twice (both copies read), as member 1 / 2 / 3 of a union beside "+
 		"its twin (exactly the members the model's fold leaves), an unrelated enumeration and string, as the inline type of deviate replace / deviate add on a leaf of another module, "+
+		"inside a type statement that names an enumeration/bits typedef with other members (in a leaf, a derived typedef, a union, a leaf-list: goyang folds the written list from an empty table there), "+
 		"and as member 2 of a union behind a near twin (the surviving table with the zero-valued member renamed / the maximum-valued member renamed / one value changed / one more member), where every member of the union is read back and both tables must be intact; the random ones get one random placement. "+
+		"On the direct path every view (Names, Values, NameMap, ValueMap, the maps ToInt and ToString, point lookups) is read back after EVERY Set/SetNext call and compared with the model's table after that prefix; the views must equal the maps and, for enumerations, be mutually inverse at every step. "+
 		"Every Go answer (errors as member index + class, Names, Values, NameMap, ValueMap, point lookups) of every run is compared with the compiled model and judged against the RFC 7950 assignment. "+
 		"distinct_nontrivial = distinct cases with at least two members (the assignment rule is about earlier members)", maxLen, oddCount, nRand)
 	res.Distribution["enumerated_sequences"] = enumerated
